@@ -68,7 +68,28 @@ def run(ctx):
         nexts = [c for c in b.calls if c.callee.endswith('Iterator>::next') and b.in_cycle(c.block)]
         per = [c for c in b.calls if c.callee == 'model::data::Message::' + op and b.in_cycle(c.block)]
         adapters = [c for c in b.calls if re.search(r'::(rev|skip|take|filter|step_by)$', c.callee)]
-        ctx.check(len(nexts) == 1 and len(per) == 1 and not adapters, 'R18.1', 'trame:%s' % op,
+        loop_form = len(nexts) == 1 and len(per) == 1 and not adapters
+        # the combinator form of the same traversal: self.iter().try_for_each(|n| n.write(w)) / .fold(0, |s, n| s + n.length()) /
+        # .map(|n| n.length()).sum(): every iterator call of the body is on this whitelist (no rev/skip/take/filter/..), exactly one
+        # consumer, and its only closure applies the operation once, unconditionally (straight-line closure body)
+        comb_form = False
+        if not nexts and not per and not any(b.in_cycle(i) for i in range(b.n) if not b.blocks[i]["cleanup"]):
+            names = [c.callee for c in b.calls]
+            prod = r'(Deref>::deref|<impl \[T\]>::iter|IntoIterator>::into_iter|Vec::<T, A>::iter|Vec::<T, A>::as_slice)$'
+            cons = {'write': r'Iterator(>)?::try_for_each$', 'read': r'Iterator(>)?::try_for_each$',
+                    'length': r'Iterator(>)?::(fold|sum)$'}[op]
+            consumers = [n for n in names if re.search(cons, n)]
+            maps = [n for n in names if re.search(r'Iterator(>)?::map$', n)]
+            others = [n for n in names if not re.search(prod, n) and n not in consumers and n not in maps]
+            cl = P.closures_of(b.path)
+            if len(consumers) == 1 and not others and len(cl) == 1 and len(maps) == (1 if consumers[0].endswith('::sum') else 0):
+                cb = cl[0]
+                live = [bl for bl in cb.blocks if not bl['cleanup']]
+                ccalls = [c.callee for c in cb.calls]
+                adds = [st_ for bl in live for st_ in bl['stmts'] if st_['s'] == 'assign' and st_['rv']['rv'] == 'bin' and st_['rv']['op'].startswith('Add')]
+                comb_form = ccalls == ['model::data::Message::' + op] and all(bl['term']['t'] in ('call', 'assert', 'return', 'goto', 'drop') for bl in live) \
+                    and (op != 'length' or consumers[0].endswith('::sum') or len(adds) == 1)
+        ctx.check(loop_form or comb_form, 'R18.1', 'trame:%s' % op,
                   'Trame::%s visits every element in order and applies %s to it' % (op, op), b.where(),
                   'Trame::%s does not apply %s to every element in order' % (op, op))
     for op in ('write', 'read', 'length'):
